@@ -801,7 +801,7 @@ def run(tier, seed, replay=None):
                 "non-trivial = at least two operations after the first constructor (some state is carried over)",
         "exhaustive": (not replay),
         "exhaustive_what": "every sequence of length 1..3 over the 13 operations (2379 histories) on each of the "
-                           "configurations small, ns, examples, rdflib; every admissible sequence of length 1..4 of "
+                           "configurations small, ns, examples, rdflib, stems; every admissible sequence of length 1..4 of "
                            "{second constructor, 4 calls x 2 Shapers, profile} for 3 ways of building the second Shaper",
         "plan": per_cfg,
         "big_graph_shexc_lines": big_lines,
